@@ -36,6 +36,11 @@ theorem executed_iff (s : State) (j : Nat) :
     executed s j = true ↔ (s.status j = .done ∨ s.status j = .skipped) := by
   simp [executed]
 
+theorem ended_of_executed {s : State} {j : Nat} (h : executed s j = true) : ended s j = true := by
+  rw [executed_iff] at h
+  unfold ended
+  rcases h with h | h <;> rw [h]
+
 theorem executed_false_iff (s : State) (j : Nat) :
     executed s j = false ↔ (s.status j ≠ .done ∧ s.status j ≠ .skipped) := by
   simp [executed]
@@ -78,10 +83,10 @@ structure Inv (s : State) : Prop where
   cnt : ∀ j, j < s.n → s.status j = .waiting → s.deps j = (cnt s j : Int) ∧ 0 < cnt s j
   rdr : ∀ o r, s.readers o r = true → o < r ∧ r < s.n ∧ executed s r = false ∧ o ∈ s.reading r
   safe : ∀ i j, i < j → j < s.n → conflictKeys (s.keys i) (s.keys j) = true →
-    executed s i = true ∨ Chain s i j
+    ended s i = true ∨ Chain s i j
   own : ∀ k o, s.nodes k = some o → o < s.n ∧
     ∀ i rd, i < s.n → (⟨k, rd⟩ : KeyReq) ∈ s.keys i → i ≠ o →
-      executed s i = true ∨ Chain s i o ∨ (rd = true ∧ s.readers o i = true)
+      ended s i = true ∨ Chain s i o ∨ (rd = true ∧ s.readers o i = true)
   free : ∀ k, s.nodes k = none → ∀ i rd, i < s.n → (⟨k, rd⟩ : KeyReq) ∉ s.keys i
 
 theorem inv_init (w : Nat) : Inv (init w) := by
@@ -279,13 +284,13 @@ structure LInv (s : State) (t : Nat) (pre : List KeyReq) (ds : List Nat) : Prop 
   rdr : ∀ o r, s.readers o r = true → o < r ∧ r < s.n ∧ executed s r = false ∧ o ∈ s.reading r
   cntlt : ∀ j, j < t → s.status j = .waiting → s.deps j = (cnt s j : Int) ∧ 0 < cnt s j
   safe : ∀ i j, i < j → j < t → conflictKeys (s.keys i) (s.keys j) = true →
-    executed s i = true ∨ Chain s i j
+    ended s i = true ∨ Chain s i j
   newsafe : ∀ i, i < t → ∀ x ∈ s.keys i, ∀ y ∈ pre, x.key = y.key → (x.read && y.read) = false →
-    executed s i = true ∨ Chain s i t
+    ended s i = true ∨ Chain s i t
   own : ∀ k o, s.nodes k = some o → o < s.n ∧ (o = t → ∃ y ∈ pre, y.key = k) ∧
     ∀ i rd, i < s.n → (⟨k, rd⟩ : KeyReq) ∈ s.keys i → i ≠ o →
       (i = t ∧ ¬ ∃ y ∈ pre, y.key = k) ∨
-      executed s i = true ∨ Chain s i o ∨ (rd = true ∧ s.readers o i = true)
+      ended s i = true ∨ Chain s i o ∨ (rd = true ∧ s.readers o i = true)
   free : ∀ k, s.nodes k = none → ∀ i rd, i < s.n → (⟨k, rd⟩ : KeyReq) ∈ s.keys i →
     i = t ∧ ¬ ∃ y ∈ pre, y.key = k
   dsnd : ds.Nodup
@@ -402,7 +407,7 @@ theorem LInv.F1 {s : State} {t : Nat} {pre : List KeyReq} {ds : List Nat} (h : L
     (H1 : executed s lt = true ∨ s.blocked lt t = true)
     {i : Nat} (hi : i < t) {rd : Bool} (hm : (⟨k, rd⟩ : KeyReq) ∈ s.keys i)
     (H2 : rd = true → s.readers lt i = true → s.blocked i t = true) :
-    executed s i = true ∨ Chain s i t := by
+    ended s i = true ∨ Chain s i t := by
   obtain ⟨_, _, h3⟩ := h.own k lt hnode
   by_cases hil : i = lt
   · subst hil
@@ -425,7 +430,7 @@ theorem LInv.commit_read {s : State} {t : Nat} {pre : List KeyReq} {ds : List Na
     {lt : Nat} (h : LInv s t pre ds) (hkr : kr ∈ s.keys t) (huniq : KeyUnique (s.keys t))
     (hnode : s.nodes kr.key = some lt) (hread : kr.read = true) (hrd : s.readers lt t = true)
     (hF1 : ∀ i, i < t → ∀ x ∈ s.keys i, x.key = kr.key → x.read = false →
-      executed s i = true ∨ Chain s i t) :
+      ended s i = true ∨ Chain s i t) :
     LInv s t (pre ++ [kr]) ds := by
   refine ⟨h.n_eq, h.st_t, h.blk, h.rdr, h.cntlt, h.safe, ?_, ?_, ?_, h.dsnd, h.ds_sup, h.ds_live⟩
   · intro i hi x hx y hy hk hr
@@ -473,7 +478,7 @@ theorem LInv.commit_read {s : State} {t : Nat} {pre : List KeyReq} {ds : List Na
 
 theorem LInv.commit_set {s : State} {t : Nat} {pre : List KeyReq} {ds : List Nat} {kr : KeyReq}
     (h : LInv s t pre ds)
-    (hF1 : ∀ i, i < t → ∀ x ∈ s.keys i, x.key = kr.key → executed s i = true ∨ Chain s i t) :
+    (hF1 : ∀ i, i < t → ∀ x ∈ s.keys i, x.key = kr.key → ended s i = true ∨ Chain s i t) :
     LInv (setNode s kr.key t) t (pre ++ [kr]) ds := by
   have hch : ∀ i j, Chain s i j → Chain (setNode s kr.key t) i j :=
     fun i j c => Chain.mono (s := s) (s' := setNode s kr.key t) (fun _ _ hb => hb) c
